@@ -298,3 +298,6 @@ UNITS.append(Unit("C07", "jsonargparse._signatures:SignatureArguments._create_gr
 
 from contracts.signature_units import add_class_arguments_unit, add_subclass_arguments_unit  # noqa: E402
 UNITS += [add_class_arguments_unit("C07"), add_subclass_arguments_unit("C07")]
+
+from contracts.share import carried as _carried  # noqa: E402
+UNITS += _carried("C07")
